@@ -512,6 +512,13 @@ func (x *searcher) record(s *streamT, path []op, f *finding) {
 	x.finds[f.kind] = &foundT{kind: f.kind, what: f.what, s: s, path: append([]op(nil), path...), count: 1}
 }
 
+func (x *searcher) violating() (n int64) {
+	for _, f := range x.finds {
+		n += f.count
+	}
+	return n
+}
+
 // explore runs the BFS for one stream. It returns the number of distinct
 // reference verdict classes seen (for the non-triviality rule).
 func (x *searcher) explore(s *streamT) (classes int) {
@@ -679,6 +686,10 @@ func TestCheck(t *testing.T) {
 		}
 		classes := x.explore(s)
 		nStreams++
+		if x.violating() > 500000 {
+			rep.NotExhaustive(fmt.Sprintf("part A stopped at stream %d of %d: more than 500000 violating transitions already", i, len(all)))
+			break
+		}
 		if classes >= 2 {
 			rep.Note("distinct_nontrivial", "A:"+s.feature())
 		}
